@@ -319,3 +319,46 @@ def merge_run(e, n, m, sub, real=False):
     e.rep.functions.update(it.functions_run)
     return assum, paths, {"ef": ef, "eg": eg, "pf": [kit.var("pf%d" % i) for i in range(n)], "pg": [kit.var("pg%d" % i) for i in range(m)],
                           "kit": kit}
+
+
+# ------------------------------------------------------------------------------------------------ C19
+def arbitrary_run(e, k, piece_failures=True):
+    """The library's own logic in <Piecewise<T> as Arbitrary>::arbitrary, from its MIR, with the dependency's decoders
+    replaced by their contract: Vec<f64>::arbitrary returns ANY vector (here: k symbolic binary64 values, NaN/inf/
+    subnormal/zero included), T::arbitrary returns Ok(any piece) or Err.  Bit-precise FP kit."""
+    from interp import ResV
+    dom = FPDomain()
+    it = Interp(e.program, dom, max_paths=200000)
+    counter = {"i": 0}
+
+    def is_vec_arbitrary(f, args):
+        return False
+    ends = [fp("end%d" % i) for i in range(k)]
+
+    # the two dependency calls are not crate functions: intercept them by callee text through do_call
+    orig_do_call = it.do_call
+
+    def do_call(callee, args):
+        if "as Arbitrary" in callee and callee.rstrip().endswith("::arbitrary"):
+            if "Vec<f64>" in callee:
+                return ResV(True, VecV([dom.sym("end%d" % i) for i in range(k)]))
+            # piece type
+            i = counter["i"]
+            counter["i"] += 1
+            if piece_failures:
+                okb = z3.Bool("piece_ok%d" % i)
+                if not it.decide(okb):
+                    return ResV(False, Struct("Error", []))
+            return ResV(True, Struct("Poly0", [dom.sym("piece%d" % i)]))
+        return orig_do_call(callee, args)
+    it.do_call = do_call
+
+    def body(itp):
+        counter["i"] = 0
+        cands = [fn for fn in e.program.by_method.get("arbitrary", []) if "Piecewise" in (fn.ret or "")]
+        if len(cands) != 1:
+            raise Unsupported("Arbitrary impl for Piecewise not found")
+        return itp.call_function(cands[0], [Ref(Cell(Struct("Unstructured", [])))])
+    paths = it.explore_body(body, feasible=solver_feasible([]))
+    e.rep.functions.update(it.functions_run)
+    return paths, ends
